@@ -133,6 +133,20 @@ let () =
     ok_of [ "block spmv = scalar spmv", veq got (Kernels.spmv sc alpha m x beta y) ]);
   reg "o.solves" (fun t -> let m = t_crs t in let f = t_vec t in let x = t_vec t in
     ok_of [ "Ax=f", veq (ax m x) f ]);
+  (* truthful residual: the reported relative residual is |f - A x| / |f| of the returned x
+     (norms as the backend computes them: sqrt of the inner product, Kernels.norm2) *)
+  reg "o.resid" (fun t -> let m = t_crs t in let f = t_vec t in let x = t_vec t in let rep = t_q t in
+    let r = List.map2 (fun fi axi -> sc.Scalar.ssub fi axi) f (ax m x) in
+    let rel = sc.Scalar.sdiv (Kernels.norm2 sc r) (Kernels.norm2 sc f) in
+    ok_of [ "reported residual = |f-Ax|/|f|", qeq rep rel ]);
+  (* complex system solved through its real equivalent: x interleaved (re, im) *)
+  reg "o.cplx_solves" (fun t -> let re = t_crs t in let im = t_crs t in let fr = t_vec t in let fi = t_vec t in let x = t_vec t in
+    let rows = List.map2 (fun r1 r2 -> List.map2 (fun (c, a) (_, b) -> (c, (a, b))) r1 r2) re.Crs.rows im.Crs.rows in
+    let rec deint = function a :: b :: tl -> (a, b) :: deint tl | _ -> [] in
+    let z = deint x in
+    let w = List.map (fun r -> A.cdotrow sc r z) rows in
+    ok_of [ "complex system A z = f", List.length z = List.length fr &&
+            List.for_all2 (fun (wr, wi) (a, b) -> qeq wr a && qeq wi b) w (List.map2 (fun a b -> (a, b)) fr fi) ]);
 
   (* ---- preconditioners: faithful entry-point models (sorting / not sorting) ---- *)
   reg "pc" (fun t -> let kind = t_s t in let m = t_crs t in
